@@ -41,8 +41,11 @@ prop('C01', title='Interest and Data packets survive an encode/decode round trip
 prop('C02', title='Signatures and parameter digests cover the specified bytes; tampering detected', level='proof',
      bounded=[('bounded.c02', 'run', SH)],
      level_text='Unbounded proof (Data, encode side) that the signer is handed exactly one range from the first byte of the Name to the start '
-                'of the SignatureValue element and the value buffer right after its header, before and after the length repair. Interest-side '
-                'ranges, parse-side ranges, acceptance by the matching verifier and tamper rejection are a bounded stand-in with real crypto.',
+                'of the SignatureValue element and the value buffer right after its header, before and after the length repair; the Interest '
+                'name encoder hands the signer every component except the digest component and the 32 digest value bytes as digest '
+                'buffer; params_sha256_checker / sha256_digest_checker hash EVERY covered block, in order, once, and accept iff the digest '
+                'equals the value buffer (SHA-256 uninterpreted). Parse-side ranges, acceptance by the matching verifier and tamper '
+                'rejection are a bounded stand-in with real crypto.',
      level_note='Unforgeability of RSA/ECDSA/HMAC/Ed25519 and SHA-256 are assumed (Cryptodome/hashlib); "no differing packet is accepted" '
                 'is only sampled.',
      technique=T_MIXED)
